@@ -348,7 +348,19 @@ fn sorted_keys(r: &mut Rng, n: usize) -> Vec<Key> {
     }
     // never the all-zero key (it is the separator of the first leaf) and never all ones (used as an outer cutoff)
     keys.retain(|k| *k != [0u8; 32] && *k != [0xffu8; 32]);
-    keys.truncate(n);
+    if keys.len() < n {
+        // (all-zero / all-one keys were dropped) top up with uniform keys
+        while keys.len() < n {
+            keys.push(r.bytes32());
+            keys.sort();
+            keys.dedup();
+        }
+    }
+    // drop random keys rather than the largest ones, so that clusters at both ends survive
+    while keys.len() > n {
+        let i = r.below(keys.len());
+        keys.remove(i);
+    }
     keys
 }
 
@@ -567,6 +579,164 @@ fn gen_scenario(r: &mut Rng) -> Scenario {
         changes.len(),
         plans.iter().map(|p| p.mode).collect::<Vec<_>>()
     );
+    Scenario { db, outer_cutoff, changes, desc }
+}
+
+/// value lengths of cells whose bodies (34 + length each) sum to exactly `total` (`total` = 0 or ≥ 34)
+fn cells_summing(r: &mut Rng, total: usize, big: u8) -> Vec<usize> {
+    let big = if big == 2 { r.chance(1, 2) } else { big == 1 };
+    let mut rem = total;
+    let mut v = Vec::new();
+    while rem > 0 {
+        assert!(rem >= 34);
+        let maxb = (34 + MAXV).min(rem);
+        let mut b = if big { r.range(maxb.saturating_sub(200).max(34), maxb) } else { r.range(34, maxb) };
+        // never leave a remainder that no cell can make up
+        if rem - b > 0 && rem - b < 34 {
+            b = if rem <= 34 + MAXV { rem } else { rem - 34 };
+        }
+        v.push(b - 34);
+        rem -= b;
+    }
+    v
+}
+
+/// scenarios aimed at the comparisons of the updater: an item that takes a leaf from below the target to exactly /
+/// just over LEAF_NODE_BODY_SIZE (kept cell and inserted cell), totals at the split / bulk-split thresholds, a
+/// remainder at the merge threshold
+fn gen_boundary(r: &mut Rng) -> Scenario {
+    let delta: isize = *r.pick(&[-2isize, -1, -1, 0, 0, 0, 1, 1, 2, 17]);
+    let mid_db = r.chance(1, 5);
+    let kind = r.below(4);
+    // (is_base, change) per key, in key order; `None` change = untouched
+    let mut items: Vec<(Option<(Vec<u8>, bool)>, Option<Option<(Vec<u8>, bool)>>)> = Vec::new();
+    let mut second_leaf: Vec<usize> = Vec::new();
+    let desc;
+    match kind {
+        0 | 1 => {
+            // front inserts g0, kept a, then b (kept / inserted) with g0 + a + b = BODY + delta, and a total that puts
+            // the target above g0 + a (so that b is the item that crosses the target)
+            // S = g0 + a + b is either BODY + delta (b takes the leaf to the limit) or target + delta (b takes it to the target)
+            let at_target = r.chance(1, 3);
+            let (sum, t): (usize, usize) = if !at_target {
+                ((BODY as isize + delta) as usize, 0)
+            } else if r.chance(1, 3) {
+                ((3070 + delta) as usize, r.range(7370, 9000))
+            } else {
+                let tg = r.range(2100, 3600);
+                ((tg as isize + delta) as usize, 2 * tg + r.below(2))
+            };
+            let bb = if !at_target && r.chance(2, 3) { r.range(1000, 34 + MAXV) } else { r.range(600, 34 + MAXV) };
+            let mut ab = r.range(34, 400);
+            let mut g0 = sum - ab - bb;
+            if g0 < 34 {
+                ab += g0;
+                g0 = 0;
+            }
+            let pre = g0 + ab;
+            let t = if at_target {
+                t
+            } else if pre < 3070 && r.chance(1, 2) {
+                r.range(7370, 9000)
+            } else {
+                r.range(2 * pre + 2, (2 * pre + 1500).min(7369))
+            };
+            let rest = t - sum;
+            if g0 > 0 {
+                for l in cells_summing(r, g0, 1) {
+                    items.push((None, Some(Some((value(r, l), false)))));
+                }
+            }
+            items.push((Some((value(r, ab - 34), false)), None));
+            if kind == 0 {
+                items.push((Some((value(r, bb - 34), false)), None));
+            } else {
+                items.push((None, Some(Some((value(r, bb - 34), false)))));
+            }
+            // the rest: more base cells (the base leaf holds at most BODY) and inserts behind
+            let base_so_far = ab + if kind == 0 { bb } else { 0 };
+            let mut base_rest = r.range(0, (BODY - base_so_far).min(rest));
+            if base_rest < 34 || (rest - base_rest > 0 && rest - base_rest < 34) {
+                base_rest = 0;
+            }
+            if base_rest >= 34 {
+                for l in cells_summing(r, base_rest, 2) {
+                    items.push((Some((value(r, l), false)), None));
+                }
+            }
+            let tail = rest - base_rest;
+            if tail >= 34 {
+                for l in cells_summing(r, tail, 2) {
+                    items.push((None, Some(Some((value(r, l), false)))));
+                }
+            }
+            desc = format!("boundary jump kind={kind} delta={delta} at_target={at_target}");
+        }
+        2 => {
+            // totals at the thresholds
+            let t = (*r.pick(&[BODY, BODY + 1, 7369, 7369, 7370, 7370, 2 * BODY + 1, MERGE, MERGE + 1]) as isize + delta) as usize;
+            let base_body = r.range(34, BODY.min(t.saturating_sub(34)).max(34));
+            let base_body = if t - base_body < 34 && t != base_body { t - 34 } else { base_body };
+            let mut base: Vec<usize> = cells_summing(r, base_body.min(BODY), 2);
+            let mut ins: Vec<usize> = if t > base_body { cells_summing(r, t - base_body.min(BODY), 2) } else { vec![] };
+            // interleave at random
+            while !base.is_empty() || !ins.is_empty() {
+                let take_base = !base.is_empty() && (ins.is_empty() || r.chance(base.len(), base.len() + ins.len()));
+                if take_base {
+                    let l = base.pop().unwrap();
+                    items.push((Some((value(r, l), false)), None));
+                } else {
+                    let l = ins.pop().unwrap();
+                    items.push((None, Some(Some((value(r, l), false)))));
+                }
+            }
+            desc = format!("boundary total={t}");
+        }
+        _ => {
+            // what is left of the first leaf is at the merge threshold; one or two followers
+            let k = (MERGE as isize + delta.min(3)) as usize;
+            let mut kept: Vec<usize> = cells_summing(r, k, 2);
+            let gone_total = r.range(34, BODY - k);
+            let mut gone: Vec<usize> = cells_summing(r, gone_total, 2);
+            while !kept.is_empty() || !gone.is_empty() {
+                let take_kept = !kept.is_empty() && (gone.is_empty() || r.chance(kept.len(), kept.len() + gone.len()));
+                if take_kept {
+                    let l = kept.pop().unwrap();
+                    items.push((Some((value(r, l), false)), None));
+                } else {
+                    let l = gone.pop().unwrap();
+                    items.push((Some((value(r, l), r.chance(1, 4))), Some(None)));
+                }
+            }
+            let second_total = r.range(34, BODY);
+            second_leaf = cells_summing(r, second_total, 2);
+            desc = format!("boundary merge remainder={k}");
+        }
+    }
+    let keys = sorted_keys(r, items.len() + second_leaf.len() + 1);
+    let mut ents: Vec<Entry> = Vec::new();
+    let mut changes = Vec::new();
+    for (i, (b, ch)) in items.iter().enumerate() {
+        if let Some((v, o)) = b {
+            ents.push((keys[i], v.clone(), *o));
+        }
+        if let Some(c) = ch {
+            changes.push((keys[i], c.clone()));
+        }
+    }
+    let mut db = vec![DbLeaf { sep: [0u8; 32], ents }];
+    let mut ki = items.len();
+    if !second_leaf.is_empty() {
+        let ents2: Vec<Entry> = second_leaf.iter().map(|l| { let e = (keys[ki], value(r, *l), false); ki += 1; e }).collect();
+        db.push(DbLeaf { sep: ents2[0].0, ents: ents2 });
+    }
+    assert!(ki < keys.len());
+    let outer_cutoff = if mid_db { Some(keys[ki]) } else { None };
+    if changes.is_empty() {
+        // an empty change list never reaches the updater: touch the first key without changing it
+        let e = db[0].ents[0].clone();
+        changes.push((e.0, Some((e.1, e.2))));
+    }
     Scenario { db, outer_cutoff, changes, desc }
 }
 
@@ -879,7 +1049,7 @@ pub fn run(seed: u64, cases: usize, out: &mut Sink) {
     }
     for case in 0..cases {
         let mut r = rng.fork();
-        let sc = gen_scenario(&mut r);
+        let sc = if case % 3 == 2 { gen_boundary(&mut r) } else { gen_scenario(&mut r) };
         out.mark_case(format!("case {case}: {}", sc.desc));
         out.count(&format!("db_leaves_{}", sc.db.len().min(6)));
         out.add("changes", sc.changes.len() as u64);
